@@ -1,5 +1,6 @@
 import RxnModel.Proofs.TimersRun
 import RxnModel.Proofs.TimersOp
+import RxnModel.Proofs.Watermark
 /-!
 The operator-level fire loop (`Op.fireLoop`: `handleWatermark` over the iterator of `AdvanceWatermark`, with batches
 flushed — and the handler's new timers registered — between two firings) refines the timer-set specification.
@@ -286,5 +287,105 @@ theorem opWatermark_refines (o : Op) (sp : Spec) (kgc start stop : Nat) (h : Rel
     ({ o with reg := { o.reg with ups := (sp.ups.report sender v).1, wm := (sp.ups.report sender v).2 } } : Op)
     { sp with ups := (sp.ups.report sender v).1, wm := (sp.ups.report sender v).2 } hrel hsh rfl hv hfuel
   exact ⟨r.out, r.rel, r.shape, r.valid⟩
+
+end Rxn.Timers
+
+namespace Rxn.Timers
+open Rxn Rxn.Bytes
+
+/-! ### histories whose watermarks are not before 1970: timers at any `int64` timestamp -/
+
+/-- like `ROp.valid`, but a timer may lie before 1970 (any `int64` of nanoseconds), and reported watermarks are ≥ 0 -/
+def ROp.validNN (kgc start stop : Nat) : ROp → Prop
+  | .set key t => start ≤ KeySpace.keyGroup kgc key ∧ KeySpace.keyGroup kgc key < stop ∧
+      -9223372036854775808 ≤ t ∧ t < 9223372036854775808
+  | .adv _ wm => 0 ≤ wm
+  | .touch _ => True
+
+theorem Ups.mem_set (u : Wm.Ups) (id : String) (v : Int) (k : String) (x : Int) (h : (k, x) ∈ u.set id v) :
+    x = v ∨ (k, x) ∈ u := by
+  induction u with
+  | nil => simp only [Wm.Ups.set, List.mem_singleton, Prod.mk.injEq] at h; exact Or.inl h.2
+  | cons p rest ih =>
+    obtain ⟨a, y⟩ := p
+    simp only [Wm.Ups.set] at h
+    by_cases h1 : a = id
+    · simp only [h1, if_true, List.mem_cons, Prod.mk.injEq] at h
+      rcases h with ⟨_, e⟩ | e
+      · exact Or.inl e
+      · exact Or.inr (List.mem_cons_of_mem _ e)
+    · simp only [h1, if_false, List.mem_cons] at h
+      rcases h with e | e
+      · exact Or.inr (e ▸ List.mem_cons_self)
+      · rcases ih e with e' | e'
+        · exact Or.inl e'
+        · exact Or.inr (List.mem_cons_of_mem _ e')
+
+/-- the registry's watermark and every upstream entry are at or after the epoch -/
+def NonNeg (r : Registry) : Prop := 0 ≤ r.wm ∧ ∀ k x, (k, x) ∈ r.ups → 0 ≤ x
+
+theorem nonNeg_new (store : Store) (ids : List String) : NonNeg (Registry.new store ids) := by
+  refine ⟨by simp [Registry.new, Wm.regInit, Facts.regInitZero, Facts.regInitSec, Facts.regInitNsec], ?_⟩
+  intro k x hm
+  obtain ⟨hwf, hget⟩ := Wm.Ups.init_spec ids
+  have := Wm.Ups.get?_some_of_mem _ hwf k x hm
+  rw [hget k] at this
+  by_cases hk : k ∈ ids
+  · simp only [hk, if_true, Option.some.injEq] at this
+    rw [← this]
+    simp [Wm.upstreamInit, Facts.upstreamInitSec, Facts.upstreamInitNsec]
+  · simp [hk] at this
+
+theorem step_refines_nn (r : Registry) (sp : Spec) (kgc start stop : Nat) (h : Rel r sp)
+    (hsh : Shape r.store kgc start stop) (hnn : NonNeg r) (op : ROp) (hv : op.validNN kgc start stop) :
+    Rel (r.step op).1 (sp.step op).1 ∧ Shape (r.step op).1.store kgc start stop ∧ NonNeg (r.step op).1 ∧
+    ((r.step op).2.Perm (sp.step op).2 ∧ (r.step op).2.Pairwise (fun a b => a.2 ≤ b.2) ∧ (r.step op).2.Nodup) := by
+  cases op with
+  | set key t =>
+    obtain ⟨v1, v2, v3, v4⟩ := hv
+    by_cases ht : 0 ≤ t
+    · have s := step_refines r sp kgc start stop h hsh (.set key t) ⟨v1, v2, ht, v4⟩
+      refine ⟨s.1, s.2.1, ?_, s.2.2⟩
+      simp only [Registry.step]
+      have := setTimer_meta r key t
+      exact ⟨by rw [this.2]; exact hnn.1, by rw [this.1]; exact hnn.2⟩
+    · -- a timer before 1970 while the watermark is at or after it: ignored by `SetTimer`, and by the specification
+      have hg : Wm.timeCond Facts.timerGuardCond r.wm t = true := by
+        simp only [Wm.timeCond, Facts.timerGuardCond, Bool.not_eq_true', decide_eq_false_iff_not]
+        have := hnn.1; omega
+      have hr : r.setTimer key t = r := by unfold Registry.setTimer; rw [if_pos hg]
+      have hs : sp.setTimer key t = sp := by
+        unfold Spec.setTimer
+        have : ¬ (t > sp.wm ∧ (key, t) ∉ sp.pending) := by
+          intro hh; have := hnn.1; rw [h.wm] at this; omega
+        rw [if_neg this]
+      simp only [Registry.step, Spec.step, hr, hs]
+      exact ⟨h, hsh, hnn, List.Perm.refl _, List.Pairwise.nil, List.nodup_nil⟩
+  | adv s v =>
+    have st := step_refines r sp kgc start stop h hsh (.adv s v) trivial
+    refine ⟨st.1, st.2.1, ?_, st.2.2⟩
+    simp only [Registry.step, Registry.advance]
+    have hall : ∀ k x, (k, x) ∈ r.ups.set s v → 0 ≤ x := by
+      intro k x hm
+      rcases Ups.mem_set r.ups s v k x hm with e | e
+      · rw [e]; exact hv
+      · exact hnn.2 k x e
+    refine ⟨?_, hall⟩
+    obtain ⟨_, k, x, hm, hx⟩ := Wm.Ups.composite_spec (r.ups.set s v) (Wm.Ups.set_ne_nil r.ups s v)
+    show 0 ≤ (r.ups.set s v).composite
+    rw [hx]; exact hall k x hm
+  | touch i =>
+    have st := step_refines r sp kgc start stop h hsh (.touch i) trivial
+    exact ⟨st.1, st.2.1, hnn, st.2.2⟩
+
+theorem run_refines_nn (ops : List ROp) (r : Registry) (sp : Spec) (kgc start stop : Nat) (h : Rel r sp)
+    (hsh : Shape r.store kgc start stop) (hnn : NonNeg r) (hv : ∀ op ∈ ops, op.validNN kgc start stop) :
+    Rel (r.run ops).1 (sp.run ops).1 ∧ OutputsAgree (r.run ops).2 (sp.run ops).2 := by
+  induction ops generalizing r sp with
+  | nil => exact ⟨h, trivial⟩
+  | cons op ops ih =>
+    obtain ⟨s1, s2, s3, s4⟩ := step_refines_nn r sp kgc start stop h hsh hnn op (hv op List.mem_cons_self)
+    obtain ⟨i1, i2⟩ := ih (r.step op).1 (sp.step op).1 s1 s2 s3 (fun o ho => hv o (List.mem_cons_of_mem _ ho))
+    exact ⟨i1, s4, i2⟩
 
 end Rxn.Timers
